@@ -2,6 +2,7 @@ import Proofs.BatchLemmas
 import Pegnet.Generated.Facts
 import Proofs.Holding
 import Proofs.Moves
+import Proofs.HistOK
 /-
   C17 — History and status tell the truth about the ledger.
 -/
@@ -140,6 +141,13 @@ theorem peg_request_row_tells_the_payment (P : Params) (h : Nat) (rates : TMap) 
         refund P.act.pip10 h (toInt64 rq.tx.inAmount) (toInt64 y) (rates.get rq.tx.inType) (rates.get rq.tx.conversion))] :=
   pegRequest_row_records_payment P h rates rq y s s' hr
 
+/-- **The two history tables stay consistent along every chain**: every recorded action (row of
+    `pn_history_transaction`) belongs to a recorded batch (row of `pn_history_txbatch` with its hash),
+    whatever the blocks contain and whether they commit or fail. -/
+theorem every_action_belongs_to_a_batch (P : Params) (chain : List Block) :
+    ∀ r ∈ (runBlocks P (freshNode P) chain).db.histT, (runBlocks P (freshNode P) chain).db.isRecorded r.hash = true :=
+  runBlocks_histOK P _ chain (histOK_fresh P)
+
 end Pegnet.C17
 
 #print axioms Pegnet.C17.pages_concat
@@ -152,3 +160,4 @@ end Pegnet.C17
 #print axioms Pegnet.C17.pending_only_while_waiting_partial
 #print axioms Pegnet.C17.conversion_row_tells_the_credit
 #print axioms Pegnet.C17.peg_request_row_tells_the_payment
+#print axioms Pegnet.C17.every_action_belongs_to_a_batch
